@@ -77,7 +77,7 @@ def accounting(h, names, removed_nostop, after_check, where,
                 'C04:transient-status:%s' % st, 'watcher %s reports status '
                 '%r at a quiescent point (%s)' % (name, st, where)))
         if st == 'stopped':
-            run = [p for p in w.eff_live(name)]
+            run = [p for p in w.eff_live(name) if p not in removed_nostop]
             if n != 0 or pids or run:
                 viols.append(Violation(
                     'C04:stopped-with-processes:%s' % (
@@ -101,7 +101,7 @@ def accounting(h, names, removed_nostop, after_check, where,
                 'C04:listed-twice', 'pid %d listed under %r' % (p, ws)))
     for p in w.eff_live():
         owner = k.procs[p].owner
-        if owner in removed_nostop:
+        if p in removed_nostop:
             continue
         if p not in listed:
             cause = _leak_cause(h, p)
@@ -142,7 +142,11 @@ def execute(case):
         if op[0] == 'req' and op[1] == 'rm' and op[2].get("nostop"):
             rep = h_.reqs[i].reply()
             if rep is None or rep.get("status") == "ok":
-                removed_nostop.add(op[2].get("name"))
+                # the workers of this incarnation are deliberately left
+                # alone (a later add / reloadconfig may reuse the name)
+                removed_nostop.update(
+                    p.pid for p in k.procs.values()
+                    if p.owner == op[2].get("name"))
         if w.quiescent() and not w.exited and not viols:
             unanswered = [r for r in w.requests if not r.answered and
                           r.command not in ('status', 'list', 'numprocesses',
@@ -202,7 +206,7 @@ def _strategy():
     return lifecycle_cases(hooks=True, exec_fail=True, children=2,
                            max_watchers=3, kill_cmd=True, signal_cmd=True,
                            respawn_false=True, rm=True, set_other=True,
-                           config=True)
+                           config=True, job_control=True)
 
 
 HOOKSETS = {
